@@ -90,18 +90,22 @@ Ignore == out' = {} /\ UNCHANGED core
 
 \* case k := <-p.lockC.   m = [d, id, gov, chain, tx, empty]
 \* The node must ignore the message when it has no guardian set yet or when the message names the
-\* governance emitter (never signed); it may ignore it when a VAA for the message id is already stored
-\* ("late observation" rule) or when the payload is empty (such a VAA could never be decoded again).
+\* governance emitter (never signed); it may ignore it when the payload is empty (such a VAA could never be decoded
+\* again); the "late observation" rule below is deterministic.
 \* While the store does not answer (up = FALSE) the stored-VAA lookup fails, which is not evidence of a stored VAA.
 MustIgnore(m) == gs = Nil \/ m.gov
-MayIgnore(m)  == MustIgnore(m) \/ (up /\ m.id \in DOMAIN db) \/ m.empty
+\* message.go: "ignoring observation since we already have a quorum VAA for it" - only when the store answers, holds a
+\* VAA of this id, and the observation's timestamp is more than the settlement time after the stored VAA's (`late`, a
+\* fact about the two bodies' timestamps supplied by the environment).  The same message observed again (timestamps
+\* equal) is never ignored: it is signed and broadcast again so that the other nodes do not count a miss.
+Ignored(m, late) == MustIgnore(m) \/ (up /\ m.id \in DOMAIN db /\ late)
 
-LocalMessageChoice(m, signs) ==
+LocalMessageChoice(m, signs, late) ==
     /\ IF signs
-       THEN ~MustIgnore(m) /\ Sign(m.d, [id |-> m.id, setIdx |-> gs.idx, chain |-> m.chain, src |-> "chain"], m.tx)
-       ELSE MayIgnore(m) /\ Ignore
+       THEN ~Ignored(m, late) /\ Sign(m.d, [id |-> m.id, setIdx |-> gs.idx, chain |-> m.chain, src |-> "chain"], m.tx)
+       ELSE (Ignored(m, late) \/ m.empty) /\ Ignore
 
-LocalMessage(m) == \E signs \in BOOLEAN : LocalMessageChoice(m, signs)
+LocalMessage(m) == \E signs, late \in BOOLEAN : LocalMessageChoice(m, signs, late)
 
 \* case v := <-p.injectC.   v = [d, id, setIdx, chain]
 Inject(v) == Sign(v.d, [id |-> v.id, setIdx |-> v.setIdx, chain |-> v.chain, src |-> "inject"], Nil)
